@@ -28,7 +28,6 @@ import (
 	"github.com/mutagen-io/mutagen/pkg/synchronization/core"
 	mutagenignore "github.com/mutagen-io/mutagen/pkg/synchronization/core/ignore/mutagen"
 
-	"verifharness/internal/coretree"
 	"verifharness/internal/hx"
 )
 
@@ -38,6 +37,9 @@ type Fault struct {
 	Syscall string `json:"syscall"`
 	N       int    `json:"n"`
 	Errno   string `json:"errno"`
+	// Offset is the number of calls of Syscall the child's main thread makes
+	// before it reaches core.Transition; 0 = measure it (replays, corpus).
+	Offset int `json:"offset,omitempty"`
 }
 
 // Case is the replay form: everything else derives from the seed.
@@ -46,6 +48,8 @@ type Case struct {
 	Seed  int64  `json:"seed"`            // per-case seed
 	Edit  string `json:"edit,omitempty"`  // C08: forced edit kind (enumeration)
 	Fault *Fault `json:"fault,omitempty"` // C09 thorough: strace injection
+	// Scenario names a hand-made world instead of a seeded one (corpus).
+	Scenario string `json:"scenario,omitempty"`
 }
 
 const rootName = "root"
@@ -193,6 +197,9 @@ func lookupEntry(e *core.Entry, p string) *core.Entry {
 // prepare builds the tree, scans it, chooses the plan, stages files and
 // (C08) edits the tree.
 func prepare(c Case) (*world, error) {
+	if c.Scenario != "" {
+		return prepareScenario(c)
+	}
 	r := rand.New(rand.NewSource(c.Seed))
 	w := &world{c: c}
 	var err error
@@ -459,6 +466,46 @@ func singleChildDirectories(plan []*core.Change) bool {
 	return ok
 }
 
+// prepareScenario builds the hand-made worlds of the corpus.
+func prepareScenario(c Case) (*world, error) {
+	w := &world{c: c}
+	var err error
+	if w.base, err = os.MkdirTemp("", "verif-"); err != nil {
+		return nil, err
+	}
+	w.parent = filepath.Join(w.base, "p")
+	w.root = filepath.Join(w.parent, rootName)
+	if err = os.MkdirAll(w.root, 0o755); err != nil {
+		return w, err
+	}
+	if err = os.Mkdir(filepath.Join(w.base, "stage"), 0o755); err != nil {
+		return w, err
+	}
+	w.dfm, w.ddm = 0o600, 0o700
+	switch c.Scenario {
+	case "symlink-chown":
+		// an ownership is configured and the plan creates a symbolic link: the
+		// fchownat after symlinkat is the call the corpus case fails
+		w.slm = core.SymbolicLinkMode_SymbolicLinkModePOSIXRaw
+		w.own = true
+		w.plan = []*core.Change{{Path: "l", New: &core.Entry{Kind: core.EntryKind_SymbolicLink, Target: "t"}}}
+	default:
+		return w, fmt.Errorf("unknown scenario %q", c.Scenario)
+	}
+	ignorer, err := mutagenignore.NewIgnorer(nil)
+	if err != nil {
+		return w, err
+	}
+	_, cache, _, err := core.Scan(context.Background(), w.root, nil, nil, sha1.New(), nil,
+		ignorer, nil, behavior.ProbeMode_ProbeModeAssume, w.slm, core.PermissionsMode_PermissionsModePortable)
+	if err != nil {
+		return w, fmt.Errorf("scan: %w", err)
+	}
+	w.cache = cache
+	w.tags = append(w.tags, "scenario:"+c.Scenario)
+	return w, nil
+}
+
 var editKinds = []string{"resize", "mtime", "chmod", "inode", "retarget", "child", "type", "remove"}
 
 // edit modifies the tree after the scan.
@@ -611,6 +658,10 @@ func (pr *printer) hexd(d []byte) string {
 		n = fmt.Sprintf("h%d", len(pr.digestNames)+1)
 		pr.digestNames[k] = n
 	}
+	var idx int
+	if _, err := fmt.Sscanf(n, "h%d", &idx); err == nil && idx <= 80 {
+		return "S_" + n
+	}
 	return `"` + n + `"`
 }
 
@@ -623,7 +674,7 @@ func (pr *printer) entryBody(e *core.Entry) string {
 		sort.Strings(names)
 		items := make([]string, len(names))
 		for i, n := range names {
-			items[i] = "(" + coretree.Str(n) + ", " + pr.entryBody(e.Contents[n]) + ")"
+			items[i] = "(" + cstr(n) + ", " + pr.entryBody(e.Contents[n]) + ")"
 		}
 		return "[" + strings.Join(items, "; ") + "]"
 	}
@@ -636,11 +687,11 @@ func (pr *printer) entryBody(e *core.Entry) string {
 	case core.EntryKind_File:
 		return "EFile " + coqBool(e.Executable) + " " + pr.hexd(e.Digest)
 	case core.EntryKind_SymbolicLink:
-		return "ELink " + coretree.Str(e.Target)
+		return "ELink " + cstr(e.Target)
 	case core.EntryKind_Untracked:
 		return "EUntracked"
 	case core.EntryKind_Problematic:
-		return "EProblem " + coretree.Str(e.Problem)
+		return "EProblem " + cstr(e.Problem)
 	case core.EntryKind_PhantomDirectory:
 		return "EPhantom " + contents()
 	default:
@@ -683,6 +734,7 @@ var problemPrefixes = []struct {
 	{"unable to create symbolic link", 16},
 	{"creation requested for unknown entry type", 17},
 	{"unable to swap file", 18},
+	{"unable to set symbolic link permissions", 19},
 }
 
 func problemCode(msg string) int {
@@ -756,7 +808,7 @@ func coqBool(b bool) string {
 func (w *world) emit(pre, post *WNode, out *outcome) string {
 	var sb strings.Builder
 	pr := &printer{digestNames: map[string]string{}}
-	fmt.Fprintf(&sb, "mkT %s %s %d %d %s\n ", coretree.Str(rootName), slmName(w.slm), uint32(w.dfm), uint32(w.ddm), coqBool(w.own))
+	fmt.Fprintf(&sb, "mkT %s %s %s %s %s\n ", cstr(rootName), slmName(w.slm), num(uint64(w.dfm)), num(uint64(w.ddm)), coqBool(w.own))
 
 	// norm table: every (path, target) the model may ask about
 	type pt struct{ p, t string }
@@ -770,9 +822,9 @@ func (w *world) emit(pre, post *WNode, out *outcome) string {
 		n, err := core.VerifNormalizeSymbolicLinkAndEnsurePortable(p, t)
 		v := "None"
 		if err == nil {
-			v = "(Some " + coretree.Str(n) + ")"
+			v = "(Some " + cstr(n) + ")"
 		}
-		norms = append(norms, fmt.Sprintf("(%s, %s, %s)", coretree.Path(p), coretree.Str(t), v))
+		norms = append(norms, fmt.Sprintf("(%s, %s, %s)", cpathc(p), cstr(t), v))
 	}
 	hashes := map[string]bool{}
 	var hashItems []string
@@ -781,7 +833,7 @@ func (w *world) emit(pre, post *WNode, out *outcome) string {
 			return
 		}
 		hashes[d] = true
-		hashItems = append(hashItems, fmt.Sprintf("(%s, %s)", coretree.Str(d), pr.hexd(digestOf(d))))
+		hashItems = append(hashItems, fmt.Sprintf("(%s, %s)", cstr(d), pr.hexd(digestOf(d))))
 	}
 	for _, top := range []*WNode{pre, post} {
 		for _, k := range top.Kids {
@@ -810,7 +862,7 @@ func (w *world) emit(pre, post *WNode, out *outcome) string {
 	for _, s := range w.staged {
 		addHash(s.Content)
 	}
-	fmt.Fprintf(&sb, "[%s]\n [%s]\n ", strings.Join(norms, "; "), strings.Join(hashItems, "; "))
+	fmt.Fprintf(&sb, "([%s] : list (path * string * option string))\n ([%s] : list (string * string))\n ", strings.Join(norms, "; "), strings.Join(hashItems, "; "))
 
 	mtR, inoR := newRanks(), newRanks()
 	pre.noteRanks(mtR, inoR)
@@ -821,7 +873,7 @@ func (w *world) emit(pre, post *WNode, out *outcome) string {
 	}
 	mtR.freeze()
 	inoR.freeze()
-	fmt.Fprintf(&sb, "(%s)\n ", pre.coq(mtR, inoR))
+	fmt.Fprintf(&sb, "(%s : node)\n ", pre.coq(mtR, inoR))
 
 	// cache
 	var cpaths []string
@@ -832,30 +884,30 @@ func (w *world) emit(pre, post *WNode, out *outcome) string {
 	citems := make([]string, len(cpaths))
 	for i, p := range cpaths {
 		e := w.cache.Entries[p]
-		citems[i] = fmt.Sprintf("(%s, ce %d %d %d %d %s)", coretree.Path(p), e.Mode,
-			mtR.of(uint64(e.ModificationTime.AsTime().UnixNano())), e.Size, inoR.of(e.FileID), pr.hexd(e.Digest))
+		citems[i] = fmt.Sprintf("(%s, ce %s %s %s %s %s)", cpathc(p), num(uint64(e.Mode)),
+			num(uint64(mtR.of(uint64(e.ModificationTime.AsTime().UnixNano())))), num(e.Size), num(uint64(inoR.of(e.FileID))), pr.hexd(e.Digest))
 	}
-	fmt.Fprintf(&sb, "[%s]\n ", strings.Join(citems, "; "))
+	fmt.Fprintf(&sb, "([%s] : cache)\n ", strings.Join(citems, "; "))
 
 	chitems := make([]string, len(w.plan))
 	for i, ch := range w.plan {
-		chitems[i] = "(mk " + coretree.Path(ch.Path) + " " + pr.entryCoq(ch.Old) + " " + pr.entryCoq(ch.New) + ")"
+		chitems[i] = "(mk " + cpathc(ch.Path) + " " + pr.entryCoq(ch.Old) + " " + pr.entryCoq(ch.New) + ")"
 	}
-	fmt.Fprintf(&sb, "[%s]\n ", strings.Join(chitems, "; "))
+	fmt.Fprintf(&sb, "([%s] : list change)\n ", strings.Join(chitems, "; "))
 
 	sitems := make([]string, len(w.staged))
 	for i, s := range w.staged {
 		obj := "None"
 		switch s.Status {
 		case "ok", "xok":
-			obj = fmt.Sprintf("(Some (SFile 384 %s))", coretree.Str(s.Content))
+			obj = fmt.Sprintf("(Some (SFile k384 %s))", cstr(s.Content))
 		case "dir", "xdir":
-			obj = "(Some (SDir 448))"
+			obj = "(Some (SDir k448))"
 		}
-		sitems[i] = fmt.Sprintf("((%s, %s), sl %s %s)", coretree.Path(s.Path), pr.hexd(s.Digest),
+		sitems[i] = fmt.Sprintf("((%s, %s), sl %s %s)", cpathc(s.Path), pr.hexd(s.Digest),
 			coqBool(strings.HasPrefix(s.Status, "x")), obj)
 	}
-	fmt.Fprintf(&sb, "[%s]\n ", strings.Join(sitems, "; "))
+	fmt.Fprintf(&sb, "([%s] : store)\n ", strings.Join(sitems, "; "))
 
 	switch {
 	case w.cancel == "":
@@ -868,18 +920,18 @@ func (w *world) emit(pre, post *WNode, out *outcome) string {
 		fmt.Fprintf(&sb, "(CProvide %d) ", j)
 	}
 	fmt.Fprintf(&sb, "%s\n ", coqBool(w.c.Fault != nil))
-	fmt.Fprintf(&sb, "(%s)\n ", post.coq(mtR, inoR))
+	fmt.Fprintf(&sb, "(%s : node)\n ", post.coq(mtR, inoR))
 
 	ritems := make([]string, len(out.results))
 	for i, e := range out.results {
 		ritems[i] = pr.entryCoq(e)
 	}
-	fmt.Fprintf(&sb, "[%s]\n ", strings.Join(ritems, "; "))
+	fmt.Fprintf(&sb, "([%s] : list oentry)\n ", strings.Join(ritems, "; "))
 	pitems := make([]string, len(out.problems))
 	for i, p := range out.problems {
-		pitems[i] = fmt.Sprintf("(%s, %d)", coretree.Path(p.Path), problemCode(p.Error))
+		pitems[i] = fmt.Sprintf("(%s, %d)", cpathc(p.Path), problemCode(p.Error))
 	}
-	fmt.Fprintf(&sb, "[%s] %s", strings.Join(pitems, "; "), coqBool(out.missing))
+	fmt.Fprintf(&sb, "([%s] : list problem) %s", strings.Join(pitems, "; "), coqBool(out.missing))
 	return sb.String()
 }
 
@@ -927,6 +979,7 @@ func runCase(c Case) (coq string, nontrivial bool, tags []string, err error) {
 
 func main() {
 	prop := flag.String("prop", "C09", "C08|C09")
+	fixed := flag.Bool("fixed", false, "compare with the model of createSymbolicLink as repaired")
 	if len(os.Args) > 2 && os.Args[1] == "-child" {
 		childMain(os.Args[2])
 		return
@@ -936,11 +989,20 @@ func main() {
 	if *prop == "C08" {
 		fn = "c08_failures"
 	}
-	w := hx.NewWriter(cfg, header, "tcase", fn, 100)
+	if *fixed {
+		fn += "_fixed"
+	}
+	w := hx.NewWriter(cfg, header, "tcase", fn, 60)
 	w.Rule = "a case = one real core.Transition call on a fresh temporary root: (settings, tables of the real normalizer and hash, disk walk before, scan cache, plan, staging table, cancellation, disk walk after, results, problems, missingFiles); distinct = distinct Coq terms (inode numbers and timestamps make every run distinct, so the tags carry the distribution); non-trivial = the transition changed the disk or recorded a problem"
 	add := func(c Case, origin string) {
 		if w.Aborted {
 			return
+		}
+		if c.Fault != nil {
+			// a stored offset belongs to the binary that measured it
+			f := *c.Fault
+			f.Offset = 0
+			c.Fault = &f
 		}
 		var coq string
 		var nt bool
@@ -971,14 +1033,14 @@ func main() {
 	}
 	for _, raw := range hx.LoadCorpus(cfg.Corpus) {
 		var c Case
-		if json.Unmarshal(raw, &c) == nil && c.Prop != "" {
+		if json.Unmarshal(raw, &c) == nil && c.Prop == *prop {
 			add(c, "corpus")
 		}
 	}
 	r := cfg.Rand
-	n := 320
+	n := 240
 	if cfg.Thorough() {
-		n = 6000
+		n = 2400
 	}
 	if *prop == "C08" {
 		// every edit kind forced once per block, then free mixtures
